@@ -202,6 +202,15 @@ def check(pid, tier, runs=None, budget_s=None, base_seed=None):
     budget_s = budget_s or cfg["budget_s"]
     base_seed = base_seed if base_seed is not None else int(os.environ.get("VERIF_SEED", "1"))
     os.makedirs(WORK, exist_ok=True); os.makedirs(REPLAYS, exist_ok=True); os.makedirs(EVID, exist_ok=True)
+    # scratch directories of runs whose worker was killed (watchdog, interrupted check) are older than any live run
+    try:
+        now = time.time()
+        for d in os.listdir(WORK):
+            dp = os.path.join(WORK, d)
+            if os.path.isdir(dp) and now - os.path.getmtime(dp) > 3600:
+                shutil.rmtree(dp, ignore_errors=True)
+    except OSError:
+        pass
     jobs = prop["jobs"]
     tb = time.time()
     exes = build_jobs(jobs)
@@ -318,7 +327,13 @@ def check(pid, tier, runs=None, budget_s=None, base_seed=None):
             known_hit.setdefault(kf["key"], kf)
             continue
         rec = read_rec(recpath)
-        mrec, used = minimise(exe, rec, sig, args, timeout_s, cfg.get("min_budget", 250))
+        # VERIF_MIN_BUDGET (or the flag file .work/MIN_BUDGET) caps the re-runs spent on minimisation (mutant matrices)
+        mb = cfg.get("min_budget", 250)
+        try:
+            mb = int(os.environ.get("VERIF_MIN_BUDGET") or open(os.path.join(WORK, "MIN_BUDGET")).read().strip())
+        except (OSError, ValueError):
+            pass
+        mrec, used = minimise(exe, rec, sig, args, timeout_s, mb)
         rp = {"property": pid, "harness": jobs[ji]["harness"], "variant": jobs[ji].get("variant", "a"), "args": list(args),
               "seed": mrec["seed"], "params": mrec["params"], "devs": mrec["devs"], "faults": mrec["faults"],
               "expect": {"signature": sig}, "msg": r.get("msg"), "original": {"ndev": len(rec["devs"]), "nfault": len(rec["faults"]), "steps": r["steps"]},
